@@ -144,7 +144,7 @@ def rand_params(rng, peak):
 def w_general(ctx, rng, i):
     """boundary postcondition + frame probe over the whole quantifier domain (incl. hostile inputs)."""
     fs = set_fs(rng)
-    n = int(rng.choice([128, 256, 512]))
+    n = int(rng.choice([128, 256, 512, 127, 208, 250, 404, 509]))     # incl. odd, prime and large-prime-factor record lengths
     n_pol = int(rng.integers(1, 3))
     kind = KINDS[i % len(KINDS)]
     peak = float(10 ** rng.uniform(-9, math.log10(0.5)))
@@ -250,7 +250,7 @@ def w_spm(ctx, rng, i):
 
 def w_onepol(ctx, rng, i):
     fs = set_fs(rng)
-    n = int(rng.choice([128, 256]))
+    n = int(rng.choice([128, 256, 127, 208]))
     peak = float(10 ** rng.uniform(-4, math.log10(0.5)))
     kind = KINDS[i % 4]
     x1 = make_field(rng, n, 1, peak, kind, fs)
@@ -272,7 +272,7 @@ def w_converge(ctx, rng, i):
     fs = float(rng.choice([8e10, 1.6e11, 3.2e11]))
     with core.quiet():
         T.gv(sps=8, fs=fs)
-    n = int(rng.choice([128, 256]))
+    n = int(rng.choice([128, 256, 208, 127]))
     n_pol = 1 + (i % 2)
     kind = ["gauss_train", "nrz", "random_bl", "leading_zeros"][i % 4]
     peak = float(10 ** rng.uniform(-2.5, math.log10(0.5)))
